@@ -203,7 +203,7 @@ def run(F, R, ctx):
            "Heap::mark no longer calls Synchronizer::enumerate_stacks: other threads' stacks are not roots", mark.loc())
     es = F.one(r"\{impl Synchronizer\}::enumerate_stacks$")
     rd = hm.fields_read(F, es, depth=1)
-    for f in ("stack", "stack_frames"):
+    for f in ("stack", "stack_frames", "current_frame", "thread_local_storage"):
         R.inst("C04.c", "Synchronizer::enumerate_stacks / reads SteelThread.%s" % f, ("SteelThread", f) in rd,
                "enumerate_stacks does not read SteelThread.%s of the stopped threads" % f, es.loc(), sample=True)
     R.inst("C04.c", "Synchronizer::enumerate_stacks / frame functions' captures", ("StackFrame", "function") in rd,
@@ -229,6 +229,32 @@ def run(F, R, ctx):
                    "held only by this native frame, so a collection triggered by this very allocation reclaims whatever "
                    "only they reference" % (nm, lib.short_name(b["callee"])), fn.loc(b["line"]),
                    sample={"args": b["args"]})
+
+    # ---------------- h: sibling agreement between the markers on how many things each kind contributes
+    R.rule("C04.h", "sibling agreement: for every value kind, each marker's visit_<kind> has at least as many trace sites "
+                    "(push_back / mark_heap_reference / mark_heap_vector calls, closures included) as the least of the other "
+                    "markers — e.g. a hash map contributes keys and values (2), a pair car and cdr (2), a stream two values")
+    TRACE = r"::(push_back|mark_heap_reference|mark_heap_vector)$"
+    counts = {}
+    for marker in MARKERS:
+        for n_, fn_ in F.fns.items():
+            mm = re.search(r"\{impl \w+(<[^}]*>)? for %s(<[^}]*>)?\}::(visit_\w+)$" % marker, n_)
+            if mm:
+                counts.setdefault(mm.group(3), {})[marker] = (
+                    len([1 for _, b_ in lib.family_calls(F, fn_) if re.search(TRACE, b_["callee"])]), fn_)
+    nh = 0
+    for kind, per in sorted(counts.items()):
+        if len(per) < 2 or not any(c for c, _ in per.values()):
+            continue
+        for marker, (c, fn_) in sorted(per.items()):
+            others = [oc for om, (oc, _) in per.items() if om != marker]
+            need = min(others)
+            nh += 1
+            R.inst("C04.h", "%s::%s has %d trace sites (siblings' least: %d)" % (marker, kind, c, need), c >= need,
+                   "%s::%s traces %d thing(s) where every other marker's %s traces at least %d: part of what this kind of "
+                   "value holds (e.g. the keys of a map, the cdr of a pair) is not marked by this marker" % (
+                       marker, kind, c, kind, need), fn_.loc(), sample=True if nh <= 3 else None)
+    R.floor("C04.h", "kinds compared", nh, 30)
 
     # ---------------- g: the two primitive steps of marking and of the weak collection
     R.rule("C04.g", "mark_heap_reference / mark_heap_vector of both marker contexts: on the not-yet-reachable path they set "
